@@ -148,3 +148,43 @@ def c18(tier, seed, only):
     chk.assumptions += ["a dead worker puts nothing more; messages it put before dying are delivered; the operating system is not in the claim (replay uses real processes killed at the recorded point)"]
     chk.extra_cov.update(evaluations=max(1, chk.res.stats["paths"]), distinct_nontrivial=max(2, nf), rule="one evaluation = one feasible (stream lengths x death points x schedule x spurious-timeout) combination, enumerated by solver-driven forking; non-trivial = at least one worker dies before its completion marker")
     return chk.finish({})
+
+
+@check("C19")
+def c19(tier, seed, only):
+    from nusym import h_stack, h_heur  # noqa
+
+    chk = Check("C19", tier, seed)
+    heights = [4, 5, 8, 255, 256] if tier == "quick" else [4, 5, 6, 8, 16, 128, 255, 256]
+    ctor_heights = [1, 2, 3, 4, 5, 128, 255, 256, 257, 258, 512]
+    heurs = h_heur.HEUR_NAMES
+    for h in ctor_heights:
+        chk.explore("stack_ctor", dict(height=h), f"ctor/H={h}", serial=True)
+    for h in heights:
+        for heur in heurs:
+            if only and heur not in only:
+                continue
+            chk.explore("stack_step", dict(height=h, heur=heur), f"step/H={h}/{heur}")
+        chk.explore("stack_shave", dict(height=h), f"shave/H={h}")
+    chain = [(4, 1), (4, 2), (5, 2), (5, 3), (6, 3), (6, 4), (7, 4)] if tier == "quick" else [(4, 1), (4, 2), (5, 2), (5, 3), (6, 3), (6, 4), (7, 4), (7, 5), (8, 5), (8, 6)]
+    for h, n in chain:
+        for heur in heurs:
+            if only and heur not in only:
+                continue
+            for shaving in (False, True):
+                if shaving and heur not in ("min_value", "mid_value"):
+                    continue
+                chk.explore("stack_chain", dict(height=h, nvars=n, heur=heur, shaving=shaving), f"chain/H={h}/n={n}/{heur}/shaving={shaving}")
+    pushed = sum(v for r in chk.runs for k, v in r["counts"].items() if k.startswith("pushed:"))
+    refused = sum(v for r in chk.runs for k, v in r["counts"].items() if k.startswith("refused:"))
+    chk.require("C19", pushed > 0, "no search step pushed a choice point")
+    chk.extra_cov.update(steps_pushed=pushed, refusals=refused)
+    chk.functions.update(["nucs.solvers.backtrack_solver.solve_one", "BacktrackSolver.__init__", "nucs.solvers.choice_points.cp_put", "cp_init", "the five value heuristics", "nucs.solvers.shaving_consistency_algorithm.shave_bound"])
+    chk.bounds = dict(step_heights=heights, constructor_heights=ctor_heights, end_to_end_chains_height_x_vars=chain, top="symbolic in [0,H) for H <= 16; for taller stacks the levels {0,1,H/2,H-5..H-1}")
+    chk.stubs += ["consistency algorithm inside the step harness: answers UNBOUND once, then the run is cut", "bound_consistency_algorithm inside shave_bound: any status, writes nothing"]
+    chk.assumptions += [
+        "a capacity problem counts as reported only if the SOURCE raises; an index or dtype obligation failing in the stand-in array is a violation (compiled code has no bounds check)",
+        "outside the claim: 8/16-bit limits on the numbers of variables, propagators and parameters in Problem.init (needs containers whose length is the variable; len() cannot be symbolic)",
+        "the levels at which a consistency algorithm can be entered (top <= H-2) are derived from the step harness and assumed by the shaving harness",
+    ]
+    return chk.finish({})
